@@ -80,8 +80,8 @@ func runC06(c c06Case, rec *ev.Rec) error {
 	if r != nil {
 		defer r.Finish()
 	}
-	if err != nil || r.Did["stale-reorder"] > 0 {
-		rec.Discard() // the model must be exact for the racing phase
+	if err != nil || r.Did["stale-reorder"] > 0 || r.OOODeleteSeen() || r.DeleteShadowSeen() {
+		rec.Discard() // the model must be exact for the racing phase (listed delete findings make it inexact)
 		return nil
 	}
 	// base time of the history: smallest committed timestamp
